@@ -14,7 +14,7 @@ import (
 func init() { Registry["C19"] = checkC19 }
 
 func checkC19(p *core.Prog, r *core.Report) {
-	r.Explanation = "Decides the wire conventions through which the packaged client primitives obtain their guarantees, as structural necessary conditions: (R1) every client.Lock built by a primitive carries the count / re-entrancy / flag values its guarantee rests on (exclusive 0/0, RLock rcount 0xff, readers 0xffff and writer 0, Semaphore / MaxConcurrentFlow the normalised n-1, PriorityLock priority + RCOUNT_IS_PRIORITY, Event mode counts and the wait-when-unlocked flag) - value origin over SSA with helper constructors inlined; (R2) the constructors and setters normalise n to n-1 exactly when n > 0 (0xffff / 0xff kept); (R3) every Lock method hands its own id, timeout, expiry, count and rcount to doLock/doUnlock in the matching argument position and doLock/doUnlock/Send* copy them to the matching fields of the LOCK / UNLOCK frame (same-typed swaps compile); (R4) the facades forward same-named quantities (timeout to timeout, expried to expried, count to count) down to the constructors; (R5) the client registers a request under its RequestId before the frame is written, removes it on every failing exit, and a reply is delivered once to the waiter found under the reply's own RequestId; (R6) the per-connection scratch buffers (server reply buffer, client request buffer) are written and handed to the stream only while the connection's mutex is held. (R7) the acquire methods report success only for result 0; (R8) the client reader decodes every reply into a fresh object. NOT decided: the admission behaviour itself under concurrency (C01/C02/C04 decide the server-side structure), pipelining order, reconnects, timing."
+	r.Explanation = "Decides the wire conventions through which the packaged client primitives obtain their guarantees, as structural necessary conditions: (R1) every client.Lock built by a primitive carries the count / re-entrancy / flag values its guarantee rests on (exclusive 0/0, RLock rcount 0xff, readers 0xffff and writer 0, Semaphore / MaxConcurrentFlow the normalised n-1, PriorityLock priority + RCOUNT_IS_PRIORITY, Event mode counts and the wait-when-unlocked flag) - value origin over SSA with helper constructors inlined; (R2) the constructors and setters normalise n to n-1 exactly when n > 0 (0xffff / 0xff kept); (R3) every Lock method hands its own id, timeout, expiry, count and rcount to doLock/doUnlock in the matching argument position and doLock/doUnlock/Send* copy them to the matching fields of the LOCK / UNLOCK frame (same-typed swaps compile); (R4) the facades forward same-named quantities (timeout to timeout, expried to expried, count to count) down to the constructors; (R5) the client registers a request under its RequestId before the frame is written, removes it on every failing exit, and a reply is delivered once to the waiter found under the reply's own RequestId; (R6) the per-connection scratch buffers (server reply buffer, client request buffer) are written and handed to the stream only while the connection's mutex is held. (R7) the acquire methods report success only for result 0; (R8) the client reader decodes every reply into a fresh object. (R9) the lock ids the client primitives use come from protocol.GenLockId, the only source unique across connections (the server matches holders by id across connections). NOT decided: the admission behaviour itself under concurrency (C01/C02/C04 decide the server-side structure), pipelining order, reconnects, timing."
 	r.Assumptions = []string{"Go type checker and go/ssa are correct for /repo"}
 	c19R1(p, r)
 	c19R2(p, r)
@@ -24,6 +24,7 @@ func checkC19(p *core.Prog, r *core.Report) {
 	c19R6(p, r)
 	c19R7(p, r)
 	c19R8(p, r)
+	c19R9(p, r)
 }
 
 // ---- R1: convention table -------------------------------------------------
@@ -1014,5 +1015,91 @@ func c19R8(p *core.Prog, r *core.Report) {
 	}
 	if n == 0 {
 		r.Fail("C19/R8: no reply return found in Read")
+	}
+}
+
+// c19R9: the server matches holds by LockId per key across all connections
+// (a second request with a holder's id is that holder re-entering), so the ids
+// the client primitives attach to their lock objects must be unique across
+// connections and processes. The one source with that property is
+// protocol.GenLockId (time + random + process-wide counter); the client's
+// generator has to hand out exactly its results.
+func c19R9(p *core.Prog, r *core.Report) {
+	const rule = "C19/R9"
+	r.Rule(rule, "client.Database.GenLockId returns, on every path, the result of protocol.GenLockId (the only cross-connection unique source)", 1)
+	fn := mustFunc(p, r, "client.(*Database).GenLockId")
+	if fn == nil {
+		return
+	}
+	var fromGen func(v ssa.Value, depth int) bool
+	fromGen = func(v ssa.Value, depth int) bool {
+		if depth > 4 {
+			return false
+		}
+		switch t := v.(type) {
+		case *ssa.Call:
+			callee := t.Common().StaticCallee()
+			if callee == nil {
+				return false
+			}
+			if callee.Name() == "GenLockId" && callee.Pkg != nil && callee.Pkg.Pkg.Name() == "protocol" {
+				return true
+			}
+			if p.IsNewFunc(callee) { // a wrapper that did not exist at confirmation time
+				ok := false
+				for _, b := range callee.Blocks {
+					for _, ins := range b.Instrs {
+						if ret, isRet := ins.(*ssa.Return); isRet && len(ret.Results) == 1 {
+							if !fromGen(ret.Results[0], depth+1) {
+								return false
+							}
+							ok = true
+						}
+					}
+				}
+				return ok
+			}
+		case *ssa.Phi:
+			for _, e := range t.Edges {
+				if !fromGen(e, depth+1) {
+					return false
+				}
+			}
+			return len(t.Edges) > 0
+		case *ssa.UnOp:
+			// a local cell holding the result
+			if al, ok := t.X.(*ssa.Alloc); ok {
+				okAll, any := true, false
+				for _, ref := range *al.Referrers() {
+					if st, isSt := ref.(*ssa.Store); isSt && st.Addr == ssa.Value(al) {
+						any = true
+						if !fromGen(st.Val, depth+1) {
+							okAll = false
+						}
+					}
+				}
+				return any && okAll
+			}
+		}
+		return false
+	}
+	n := 0
+	for _, b := range fn.Blocks {
+		for _, ins := range b.Instrs {
+			ret, ok := ins.(*ssa.Return)
+			if !ok || len(ret.Results) != 1 {
+				continue
+			}
+			n++
+			key := "client.(*Database).GenLockId: source of the id"
+			if fromGen(ret.Results[0], 0) {
+				r.Hold(rule, key, p.InstrPos(ins), "protocol.GenLockId")
+			} else {
+				r.Violate(rule, key, p.InstrPos(ins), "the lock id handed to the client primitives is not the result of protocol.GenLockId: ids built per connection / per database collide across connections, and the server takes a request carrying another connection's id for that holder re-entering (two independent RLock holders, spurious LOCKED_ERROR for Lock / Semaphore)", nil)
+			}
+		}
+	}
+	if n == 0 {
+		r.Fail("C19/R9: GenLockId has no return")
 	}
 }
